@@ -684,13 +684,13 @@ func (ss *ServerSession) runInner() error {
 
 			// in case of RECORD, timeout happens when no RTP or RTCP packets are being received
 			if ss.state == ServerSessionStateRecord {
-				if now.Sub(time.Unix(lft, 0)) >= ss.s.ReadTimeout {
+				if now.Sub(time.Unix(0, lft)) >= ss.s.ReadTimeout {
 					return liberrors.ErrServerSessionTimedOut{}
 				}
 
 				// in case of PLAY, timeout happens when no RTSP keepalives and no RTCP packets are being received
 			} else if now.Sub(ss.lastRequestTime) >= ss.s.IdleTimeout &&
-				now.Sub(time.Unix(lft, 0)) >= ss.s.IdleTimeout {
+				now.Sub(time.Unix(0, lft)) >= ss.s.IdleTimeout {
 				return liberrors.ErrServerSessionTimedOut{}
 			}
 
@@ -1259,7 +1259,7 @@ func (ss *ServerSession) handleRequestInner(sc *ServerConn, req *base.Request) (
 				ss.state = ServerSessionStatePlay
 				ss.propsMutex.Unlock()
 
-				ss.udpLastPacketTime.Store(ss.s.timeNow().Unix())
+				ss.udpLastPacketTime.Store(ss.s.timeNow().UnixNano())
 
 				ss.timeDecoder = &rtptime.GlobalDecoder{}
 				ss.timeDecoder.Initialize()
@@ -1353,7 +1353,7 @@ func (ss *ServerSession) handleRequestInner(sc *ServerConn, req *base.Request) (
 			ss.state = ServerSessionStateRecord
 			ss.propsMutex.Unlock()
 
-			ss.udpLastPacketTime.Store(ss.s.timeNow().Unix())
+			ss.udpLastPacketTime.Store(ss.s.timeNow().UnixNano())
 
 			ss.timeDecoder = &rtptime.GlobalDecoder{}
 			ss.timeDecoder.Initialize()
